@@ -338,6 +338,21 @@ func runC19(c *Ctx) {
 		}
 	}
 
+	// well-formed packets of OTHER types in answer to INIT (a server that refuses the handshake with a STATUS - INIT has no request
+	// id, so such a server would use 0 -, or is confused about what it is answering): never a session
+	for _, id := range []uint32{0, 3, 1} {
+		for _, code := range []uint32{0, 1, 2, 4, 8} {
+			full := (&rb{}).u8(fxpStatus).u32(id).u32(code).str("msg").str("en").b
+			hs(full, false)
+			hs((&rb{}).u8(fxpStatus).u32(id).u32(code).str("").str("").b, false)
+			hs((&rb{}).u8(fxpStatus).u32(id).u32(code).b, false)
+			hs(full[:len(full)-3], false)
+		}
+		hs((&rb{}).u8(fxpHandle).u32(id).str("h").b, false)
+		hs((&rb{}).u8(fxpData).u32(id).str("data").b, false)
+		hs((&rb{}).u8(fxpAttrs).u32(id).u32(0).b, false)
+		hs((&rb{}).u8(fxpName).u32(id).u32(0).b, false)
+	}
 	// extended requests by name against both servers, followed by a normal request
 	for cfg, reqServer := range []bool{false, true, false} {
 		readOnly := cfg == 2 // third configuration: the os-backed server with ReadOnly()
